@@ -10,7 +10,7 @@ from harness.core import ok, fail, skip, rs
 from harness.worker import Stream
 
 OBLIGATIONS = [
-    "PgmVerif.C09_colmajor_roundtrip", "PgmVerif.C09_colmajor_entry", "PgmVerif.C09_uai_index_bijection", "PgmVerif.C09_round4_bound",
+    "PgmVerif.C09_colmajor_roundtrip", "PgmVerif.C09_colmajor_entry", "PgmVerif.C09_uai_index_bijection", "PgmVerif.C09_round4_bound", "PgmVerif.C09_round4_idempotent",
     "PgmVerif.C09_net_decimals_tie",
 ]
 PARTIAL = ["everything lexical (pyparsing grammars, regular-expression block splitting, str(float), numpy array printing, XML) is outside the "
